@@ -179,7 +179,9 @@ Example C04_example_header_short_track :
 Proof. vm_compute. split; reflexivity. Qed.
 
 (* ------------------------------------------------------------------ *)
-(* dec_bounded as a THEOREM for codecs 1 and 2 (added by the integrator).  The decoder the tools call for codecs 1/2 is
+(* dec_bounded as a THEOREM (added by the integrator; for codecs 1 and 2 since fix e31d8d3, for ALL FOUR codecs since fix 90b3a68,
+   which extended the capacity check of ECCMan.decode to the reedsolo decoders — the theorem never depended on the codec number,
+   only the code did).  The decoder the tools call is
    ECCMan.decode = FacadeDec.fac_decode12 around an ARBITRARY third-party decoder `inner` (only its output lengths are
    assumed): whatever `inner` answers, a value committed on the strength of the syndrome check alone lies within the
    errors-and-erasures radius of the received block + parity (2*errors + erasures <= mb - k, an erasure being every
